@@ -247,7 +247,7 @@ func writeIsTriviallySerializableSpecialization(w *formatting.IndentedWriter, t 
 							if i > 1 {
 								w.WriteString(" && ")
 							}
-							fmt.Fprintf(w, "offsetof(__T__, %s) < offsetof(__T__, %s)", common.FieldIdentifierName(common.FieldIdentifierName(t.Fields[i-1].Name)), common.FieldIdentifierName(f.Name))
+							fmt.Fprintf(w, "offsetof(__T__, %s) < offsetof(__T__, %s)", common.FieldIdentifierName(t.Fields[i-1].Name), common.FieldIdentifierName(f.Name))
 						}
 					}
 				}
